@@ -147,6 +147,19 @@ def map_diag(ub, d):
         callee_clause = clause
     elif owner is not None:
         oid = '%s#%s@%s' % (owner, slug(msg), slug(src_text))
+        # a failed `requires` of a prelude stub that carries a `// [label]{props} ..` comment on the line above: named obligation
+        LABEL = re.compile(r'^\s*//\s*\[([A-Za-z0-9_.\-]+)\](?:\{([A-Z0-9,\s]+)\})?\s*(.*)$')
+        for sp in spans:
+            if 'failed' in (sp.get('label') or ''):
+                ln = sp['line_start']
+                for cand in (ln - 2, ln - 1):
+                    if 0 <= cand < len(ub.lines):
+                        mm = LABEL.match(ub.lines[cand])
+                        if mm:
+                            oid = '%s#%s' % (owner, mm.group(1))
+                            if mm.group(2):
+                                props = [x.strip() for x in mm.group(2).split(',') if x.strip()]
+                            break
     else:
         oid = '%s/?#%s@%s' % (ub.name, slug(msg), slug(src_text))
     if props is None:
